@@ -135,3 +135,45 @@ def run_cross(pids: List[str], jobs: int = 16, kind: str = "equiv") -> List[dict
                         tasks.append((owner, i, chk))
     with Pool(min(jobs, max(1, len(tasks)))) as pool:
         return pool.map(_cross_one, tasks, chunksize=4)
+
+
+def run_foreign(pid: str, pids: List[str], jobs: int = 16) -> dict:
+    """This property's rule set against the variants of all the *other* properties: their behaviour-preserving
+    variants must leave it silent (no false alarm, no loss of sight); their breaking variants may be reported or not,
+    but must not crash it."""
+    tasks = []
+    for owner in pids:
+        if owner == pid:
+            continue
+        try:
+            mod = importlib.import_module(f"pvs.props.{owner.lower()}")
+        except ModuleNotFoundError:
+            continue
+        for i, _ in enumerate(getattr(mod, "MUTANTS", [])):
+            tasks.append((owner, i, pid))
+    if not tasks:
+        return {}
+    with Pool(min(jobs, len(tasks))) as pool:
+        res = pool.map(_cross_one, tasks, chunksize=4)
+    kinds = {}
+    for owner, i, _ in tasks:
+        kinds[(owner, i)] = importlib.import_module(f"pvs.props.{owner.lower()}").MUTANTS[i].get("kind", "mutant")
+    out = {"foreign_equivalents": 0, "foreign_equivalents_silent": 0, "foreign_mutants": 0, "foreign_mutants_reported": 0, "foreign_mutants_analysis_error": 0, "problems": []}
+    for (owner, i, _), r in zip(tasks, res):
+        if r["status"] == "skipped":
+            continue
+        if kinds[(owner, i)] == "equiv":
+            out["foreign_equivalents"] += 1
+            if r["status"] == "silent":
+                out["foreign_equivalents_silent"] += 1
+            else:
+                out["problems"].append(f"behaviour-preserving variant {owner}/{r['id']} is not silent under {pid}: {r['status']} {r['detail']}")
+        else:
+            out["foreign_mutants"] += 1
+            if r["status"] == "violation":
+                out["foreign_mutants_reported"] += 1
+            elif r["status"] == "analysis-error":
+                out["foreign_mutants_analysis_error"] += 1
+            elif r["status"] == "crash":
+                out["problems"].append(f"breaking variant {owner}/{r['id']} crashes {pid}: {r['detail']}")
+    return out
